@@ -59,7 +59,16 @@ def _envs():
     class LimEnvShorthand(LimEnv):
         shorthand_indexes = True
 
-    return [LimEnv, LimEnvShorthand], DictLoader
+    # the environment with the optional tags and filters of docs/optional_tags.md and
+    # docs/optional_filters.md (tablerow, base64_*)
+    from liquid2.shopify import Environment as ShopifyEnvironment
+
+    class LimEnvShopify(ShopifyEnvironment):
+        loop_iteration_limit = LOOP_LIMIT
+        output_stream_limit = 200_000
+        local_namespace_limit = 2_000_000
+
+    return [LimEnv, LimEnvShorthand, LimEnvShopify], DictLoader
 
 
 def _size(o: Any, depth: int = 0) -> int:
@@ -78,6 +87,9 @@ def _size(o: Any, depth: int = 0) -> int:
 
 HELPER_MODULES = ("limits", "filter", "stringify", "utils")
 _SHORTHAND_RELEVANT = re.compile(r"\.\s*\d")
+_SHOPIFY_RELEVANT = re.compile(r"tablerow|base64")
+# a range one of whose bounds is a variable of the skeleton
+_VAR_IN_RANGE = re.compile(r"\([^()]*\b[abc]\b[^()]*\.\.[^()]*\)|\([^()]*\.\.[^()]*\b[abc]\b[^()]*\)")
 
 
 def _innermost(tb) -> str:  # noqa: ANN001
@@ -215,6 +227,15 @@ class Runner:
             finally:
                 self.variant = 0
             key = key or k2
+        if record and self.variant == 0 and _SHOPIFY_RELEVANT.search(source):
+            # optional tags / filters exist only in the Shopify-flavoured environment
+            self.variant = 2
+            try:
+                ctx.count("shopify_config_runs")
+                k3 = self.execute(source, data, templates, mode)
+            finally:
+                self.variant = 0
+            key = key or k3
         return key
 
 
@@ -277,6 +298,7 @@ FILTERS = [
     "safe", "size", "slice", "sort", "sort_natural", "sort_numeric", "split", "strip",
     "strip_html", "strip_newlines", "sum", "t", "times", "truncate", "truncatewords", "uniq",
     "unit", "upcase", "url_decode", "url_encode", "where",
+    "base64_encode", "base64_decode", "base64_url_safe_encode", "base64_url_safe_decode",
 ]
 
 # keyword arguments accepted by some filters (name -> kwargs spelled with variable b/c)
@@ -339,6 +361,20 @@ SKELETONS = [
     "{% for i in a %}{% for j in forloop %}{{ j }}{% endfor %}{% if forloop == forloop %}y{% endif %}{% if forloop == b %}n{% endif %}{{ forloop }}{{ forloop | size }}{% endfor %}",
     "{% for i in a %}{{ forloop | first }}{{ forloop | sort }}{{ forloop | map: 'x' }}{{ forloop[b] }}{{ forloop.parentloop | json }}{% endfor %}",
     "{% assign now = a %}{% assign today = b %}{{ now }}{{ today | date: c }}{% assign forloop = a %}{% for i in b %}{{ forloop.index }}{% endfor %}",
+    # membership in a range (lazy, never materialised) of every kind of value
+    "{% if (1..5) contains a %}y{% endif %}{% if b in (1..5) %}z{% endif %}{% assign r = (1..3) %}{% unless r contains c %}w{% endunless %}",
+    "{{ 'p' if (0..4) contains a else 'q' }}{{ (1..4) | where: i => (1..5) contains b | size }}{% case true %}{% when c in (2..3) %}k{% endcase %}",
+    # tablerow (optional tag): column counts, limits and offsets of every kind; the loop drop as a value
+    "{% tablerow x in a cols: b limit: c %}{{ x }}{{ tablerowloop.col }}{{ tablerowloop.row }}{% endtablerow %}",
+    "{% tablerow x in a cols: c offset: b reversed %}{{ tablerowloop.col_first }}{{ tablerowloop.col_last }}{{ tablerowloop.index0 }}{% endtablerow %}",
+    "{% tablerow x in (a..b) cols: c %}{{ x }}{% endtablerow %}{% tablerow x in (1..4) cols: a limit: b offset: c %}{{ x }}{% endtablerow %}",
+    "{% tablerow x in a %}{% for k in tablerowloop %}{{ k }}{% endfor %}{{ tablerowloop }}{{ tablerowloop | size }}{{ tablerowloop | first }}{% endtablerow %}",
+    "{% tablerow x in a %}{% if tablerowloop == tablerowloop %}y{% endif %}{% if tablerowloop == b %}n{% endif %}{{ tablerowloop[b] }}{{ tablerowloop | sort }}{{ tablerowloop | map: 'x' }}{% endtablerow %}",
+    "{% tablerow x in a cols: 2 %}{% tablerow y in b cols: c %}{{ y }}{% endtablerow %}{% for i in c %}{{ tablerowloop.col }}{{ forloop.parentloop }}{% break %}{% endfor %}{% endtablerow %}",
+    # inheritance tags where they do not belong
+    "{% include 'mx' %}{% call mm %}", "{% macro mm %}{% extends 'p' %}{% endmacro %}x{% call mm %}y",
+    "{% capture z %}{% extends 'p' %}{% endcapture %}{{ z }}", "{% for i in a %}{% block bb %}{{ i }}{% endblock %}{% extends 'p' %}{% endfor %}",
+    "{% render 'mx' %}{% call mm %}{% with q: a %}{% extends 'blk' %}{% endwith %}", "{% extends 'blk' %}{% block b1 %}{% include 'mx' %}{% call mm %}{{ block.super }}{% endblock %}",
     # template strings (interpolated expressions) in every position that takes an expression
     "{% cycle 'x${a}', b %}{% cycle \"${b | upcase}\", 'y${c}' %}{% cycle g: 'p${b}', c %}{% cycle 'x${a}', b %}",
     "{% case 'k${a}' %}{% when 'k${b}', \"k${c}\" %}w{% else %}e{% endcase %}",
@@ -352,6 +388,8 @@ SKELETONS = [
     "{% for x in a limit: '${b}' offset: \"${c}\" %}{{ x }}{% endfor %}{% unless '${a}' %}u{% endunless %}",
 ]
 SKELETON_PARTIALS = {
+    "mx": "{% macro mm %}{% extends 'p' %}{% endmacro %}",
+    "blk": "<{% block b1 %}{{ a }}{% endblock %}{% block b2 %}{% endblock %}>",
     "p": "[{{ x }}{{ p }}]",
     "q": "{{ q }}{{ forloop.index }}{% for i in q %}{{ i }}{% endfor %}",
 }
@@ -422,7 +460,7 @@ def floors(tier: str) -> dict[str, int]:
         "ok": 10_000 * k,
         "shorthand_config_runs": 10_000 * k,
         "depth_limit_renders": 900,
-        "skeleton_programs_that_parse": 380,
+        "skeleton_programs_that_parse": 394, "cpu_time_probes": 6, "shopify_config_runs": 2000 * k,
     }
 
 
@@ -517,15 +555,18 @@ def _confused(r: Runner, spec: dict[str, Any], ctx: Ctx) -> None:
     for pi, p in enumerate(progs):
         if pi % spec["n"] != spec["i"]:
             continue
+        r.variant = 2 if _SHOPIFY_RELEVANT.search(p) else 0
         try:
             r.env_for(tpls).from_string(p)
             ctx.count("skeleton_programs_that_parse")
         except Exception:  # noqa: BLE001
             ctx.count("skeleton_programs_rejected_at_parse")
             ctx.note(f"skeleton rejected at parse time: {p[:80]}")
+        finally:
+            r.variant = 0
         # ranges are lazy; materialising an astronomically long one is a separate,
         # explicitly probed mechanism (see _range_probe), not part of this sweep
-        pool = RANGE_SAFE if ".." in p else HOSTILE
+        pool = RANGE_SAFE if _VAR_IN_RANGE.search(p) else HOSTILE
         nvars = sum(1 for v in "abc" if v in p)
         # one-variable exhaustive, then sampled tuples
         combos: list[tuple[Any, Any, Any]] = []
@@ -693,6 +734,38 @@ RANGE_PROBES = [
 ]
 
 
+# Membership tests walk a range inside the interpreter's C code, where the logical clock does
+# not tick.  CPU time of this process (not wall-clock time: a loaded machine does not inflate
+# it) decides instead, with a wide margin: the unbounded variants need seconds of CPU for these
+# 40-character inputs, a bounded evaluation well under 10 ms.
+CPU_PROBES = [
+    ("{% if (1..a) contains 1.5 %}y{% endif %}", {}),
+    ("{% if b in (1..a) %}y{% endif %}", {"b": "x"}),
+    ("{% if b in (1..a) %}y{% endif %}", {"b": None}),
+    ("{% assign r = (1..a) %}{% unless r contains b %}n{% endunless %}", {"b": [1]}),
+    ("{% if (1..a) contains b %}y{% endif %}", {"b": 2.0}),
+    ("{{ 'y' if (1..a) contains b else 'n' }}", {"b": float("nan")}),
+]
+CPU_BUDGET_S = 1.0
+
+
+def _cpuprobe(r: Runner, ctx: Ctx) -> None:
+    import time
+
+    for src, extra in CPU_PROBES:
+        for a in (5 * 10**7,):
+            t0 = time.process_time()
+            r.execute(src, {"a": a, **extra}, {}, "sync")
+            used = time.process_time() - t0
+            ctx.count("cpu_time_probes")
+            ctx.mx("max:cpu_ms_per_probe", int(used * 1000))
+            if used > CPU_BUDGET_S:
+                ctx.violation("cpu-time-unbounded@range-membership-of-non-integer",
+                              f"{used:.1f} s of CPU time for a {len(src)}-character template: membership of a "
+                              f"{type(extra.get('b', 1.5)).__name__} in a range of {a} items walks the range",
+                              {"source": src, "data": {"a": a, **extra}, "templates": {}, "mode": "sync", "cpu_probe": True})
+
+
 def _rangeprobe(r: Runner, spec: dict[str, Any], ctx: Ctx) -> None:
     """Ranges are lazy; a filter that walks one item by item in Python is unbounded
     in the size of the input.  The logical clock (which counts generator
@@ -704,11 +777,23 @@ def _rangeprobe(r: Runner, spec: dict[str, Any], ctx: Ctx) -> None:
                 pass
             r.execute(p, {"a": a, "b": [1]}, {}, "sync")
             ctx.count("range_probes")
+    _cpuprobe(r, ctx)
 
 
 def replay(wit: dict[str, Any], ctx: Ctx) -> None:
     r = Runner(ctx)
     r.variant = int(wit.get("variant") or 0)
+    if wit.get("cpu_probe"):
+        import time
+
+        t0 = time.process_time()
+        r.execute(wit["source"], wit.get("data") or {}, {}, "sync")
+        used = time.process_time() - t0
+        print(f"replay C02: {used:.2f} s of CPU time (budget {CPU_BUDGET_S} s)")
+        if used > CPU_BUDGET_S:
+            ctx.violation("cpu-time-unbounded@range-membership-of-non-integer", f"{used:.1f} s of CPU time", wit)
+        r.sc.stop()
+        return
     try:
         key = r.execute(wit["source"], wit.get("data") or {}, wit.get("templates") or {},
                         wit.get("mode", "sync"))
